@@ -198,8 +198,10 @@ Record loop_out := { lo_items : list Z; lo_length : Z; lo_stopindex : Z }.
 Definition slice_list (l : list Z) (start stop : Z) : list Z :=
   firstn (Z.to_nat (stop - start)) (skipn (Z.to_nat start) l).
 
-(** LoopExpression._slice (expressions.py:1643-1676).  itertools.islice
-    rejects negative indexes with ValueError. *)
+(** LoopExpression._slice (expressions.py:1647-1687).  After the early return
+    a limit is clamped to >= 0 and an integer offset to [0, length] (commit
+    c5a60dd); the stop index read for offset:continue is not clamped, so the
+    islice ValueError for a negative index stays reachable only through it. *)
 Definition loop_slice (it : list Z) (rev_ : bool) (stopindex : Z)
   (limit : option Z) (offset : offset_val) : res loop_out :=
   let length := Z.of_nat (List.length it) in
@@ -207,6 +209,11 @@ Definition loop_slice (it : list Z) (rev_ : bool) (stopindex : Z)
   | None, OvNone =>
       Ok {| lo_items := if rev_ then rev it else it; lo_length := length; lo_stopindex := length |}
   | _, _ =>
+      let limit := option_map (fun l => Z.max l 0) limit in
+      let offset := match offset with
+                    | OvInt z => OvInt (Z.min (Z.max z 0) length)
+                    | o => o
+                    end in
       let '(off, length1) :=
         match offset with
         | OvContinue => (Some stopindex, Z.max (length - stopindex) 0)
